@@ -87,6 +87,15 @@ def run(chk):
             op = line.split(' ')[0]; rest = line[len(op):]
             h = hist(r)
             wrapped.append('with_ctx %s %s%s' % (hx(h), op.encode().hex(), rest)); inner.append(line)
+        if g == 'core':
+            # long hash inputs (several 64-byte blocks in one write) through contexts whose SHA-256 compression function was replaced
+            # by an equivalent one: the replaced function is called with block counts above 1 only for such inputs
+            for L in [63, 64, 65, 127, 128, 129, 191, 192, 200, 256, 1000] + [r.below(3000) for _ in range(chk.scale(4, 40))]:
+                for h in (b'\x07', hist(r) + b'\x07', b'\x07\x03', b'\x07\x04', b'\x07\x05' + r.bytes(32), b'\x07\x08'):
+                    line = 'tagged_sha256 %s %s' % (hx(r.bytes(r.choice([0, 5, 64]))), hx(r.bytes(L)))
+                    wrapped.append('with_ctx %s %s%s' % (hx(h), b'tagged_sha256'.hex(), line[len('tagged_sha256'):])); inner.append(line)
+                    line = 'sha256 %s' % hx(r.bytes(L))
+                    wrapped.append('with_ctx %s %s%s' % (hx(h), b'sha256'.hex(), line[len('sha256'):])); inner.append(line)
         ri = vlib.run_cases(impl, wrapped); rm = vlib.run_cases(model, inner)
         bad = 0
         for w, l, a, b in zip(wrapped, inner, ri, rm):
